@@ -258,6 +258,46 @@ func c10check(tr *lib.Trace, bt *T, model map[string]uint64, hist, op string, r 
 		tr.Fail("check-count", fmt.Sprintf("%s :: Check count %d, expected %d", hist, cnt, len(model)))
 		return false
 	}
+	// node invariants: every node holds at most splitCount entries (+1 offset for a bulk-built
+	// tree node), fits maxNodeSize, and only the root of an empty tree is empty
+	var nodeMsg string
+	if msg := lib.Catch(func() {
+		var walk func(level int, off uint64)
+		walk = func(level int, off uint64) {
+			nd := bt.readNode(level, off)
+			n := nd.noffs()
+			limit := splitCount
+			if level < bt.treeLevels {
+				limit = splitCount + 1
+			}
+			if n > limit && nodeMsg == "" {
+				nodeMsg = fmt.Sprintf("node at level %d holds %d entries, limit %d", level, n, limit)
+			}
+			if nd.size() > maxNodeSize && nodeMsg == "" {
+				nodeMsg = fmt.Sprintf("node at level %d has size %d > %d", level, nd.size(), maxNodeSize)
+			}
+			if n == 0 && !(level == 0 && bt.treeLevels == 0) && nodeMsg == "" {
+				nodeMsg = fmt.Sprintf("empty node at level %d", level)
+			}
+			if level < bt.treeLevels {
+				for i := 0; i < n; i++ {
+					walk(level+1, nd.offset(i))
+				}
+			}
+		}
+		walk(0, bt.root)
+	}); msg != "" {
+		tr.Fail("node-walk-panic", hist+" :: "+msg)
+		return false
+	}
+	if nodeMsg != "" {
+		sig := "node-invariant"
+		if strings.Contains(nodeMsg, "has size") {
+			sig = "node-too-large-stored" // same family as merge-panic-node-too-large (huge keys)
+		}
+		tr.Fail(sig, fmt.Sprintf("%s maxkeylen %d :: %s", hist, c10maxlen(keys), nodeMsg))
+		return false
+	}
 	// iteration, both directions
 	var fwd, bwd []c10kv
 	msg := lib.Catch(func() {
